@@ -53,7 +53,10 @@ def r1_call_discipline(repo: Repo, rep):
             rep.check(R, scalar, fi.site(c), fi.fq, "differentiated quantity is `<tensor>.sum()` (full reduction)", dump(out)[:80], dump(out)[:80])
             rep.check(R, cg is not None and dump(cg) == "True", fi.site(c), fi.fq, "create_graph=True", f"create_graph={dump(cg)}", f"create_graph={dump(cg)}")
             # the variable is the loop variable over the *variables argument
-            loopvars = {dump(l.target) for l in ast.walk(fi.node) if isinstance(l, ast.For) and vararg and dump(l.iter) == vararg}
+            loopvars = set()
+            for l in ast.walk(fi.node):
+                if isinstance(l, ast.For) and vararg and any(isinstance(n, ast.Name) and n.id == vararg for n in ast.walk(l.iter)):
+                    loopvars |= {n.id for n in ast.walk(l.target) if isinstance(n, ast.Name)}
             rep.check(R, inp is not None and dump(inp) in loopvars, fi.site(c), fi.fq, f"differentiation w.r.t. the current element of *{vararg}", dump(inp), dump(inp))
             par = _parent(fi.node, c)
             rep.check(R, isinstance(par, ast.Subscript) and dump(par.slice) == "0", fi.site(c), fi.fq, "the gradient w.r.t. that variable is taken ([0])", dump(par)[:60] if par is not None else "", "result index")
